@@ -10,6 +10,7 @@ R17.4 the element validator is not optional: callers pass one derived from the c
 from __future__ import annotations
 
 import ast
+import os
 
 from sa.cfg import EXC_LABELS, node_calls, node_exprs, _walk_shallow
 from sa.common import cfg_of
@@ -489,7 +490,68 @@ def r17_6(prog: Program, rep):
     rep.ob("R17.6", m.rel, f.qual, "a symlinked component raises InvalidPathError", "S_ISLNK" in src and "raise InvalidPathError" in src, "", f.node.lineno)
 
 
+WT_MODULES = ("dulwich/index.py", "dulwich/patch.py", "dulwich/worktree.py", "dulwich/sparse_patterns.py", "dulwich/stash.py",
+              "dulwich/porcelain/__init__.py", "dulwich/file.py")
+
+
+def _charwise_prefix_tests(tree: ast.AST):
+    """Character-wise prefix tests between paths: os.path.commonprefix(...) anywhere; x.startswith(<root>) where both are
+    resolved paths and the argument carries no separator."""
+    out = []
+    for c in ast.walk(tree):
+        if isinstance(c, ast.Call) and (dotted(c.func) or "").endswith("commonprefix"):
+            out.append(c)
+    return out
+
+
+def r17_7(prog: Program, rep):
+    """Containment of a resolved path in the work tree is decided per path COMPONENT.  `/w/tree-backup/x` starts with
+    `/w/tree` character-wise; a character-wise test lets a symlink into a sibling directory whose name merely starts with
+    the work tree's name pass.  Accepted idioms: x == root or x.startswith(root + <separator>); os.path.commonpath;
+    Path.relative_to / is_relative_to.  Rejected: os.path.commonprefix; startswith(root) without a separator."""
+    # self-check of the detector (the expected count on the tree is zero)
+    probe = ast.parse("import os\ndef f(a, b):\n    return os.path.commonprefix([a, b]) == a\n")
+    if len(_charwise_prefix_tests(probe)) != 1:
+        raise AnalysisError("R17.7 detector self-check failed")
+    n_mod = 0
+    for rel in WT_MODULES:
+        if rel not in prog.modules and not os.path.exists(os.path.join(prog.root, rel)):
+            continue
+        m = prog.module(rel)
+        n_mod += 1
+        bad = _charwise_prefix_tests(m.tree)
+        fq = (m.enclosing_func(bad[0]).qual if bad and m.enclosing_func(bad[0]) else "<module>")
+        rep.ob("R17.7", rel, fq if bad else "<module>", "no character-wise path prefix test (os.path.commonprefix)", not bad,
+               f"`{norm(bad[0], 70)}` compares characters, not path components: `<tree>-backup/x` has the common prefix `<tree>`, so a "
+               f"path resolved into a sibling directory whose name starts with the work tree's name is accepted as inside" if bad else "",
+               bad[0].lineno if bad else 0)
+    if n_mod < 5:
+        raise AnalysisError(f"work-tree modules not found ({n_mod})")
+    # the patch-target sanitizer: equality or prefix-with-separator
+    m = prog.module("dulwich/patch.py")
+    f = m.funcs.get("_ensure_within_repo")
+    if f is None:
+        raise AnalysisError("patch._ensure_within_repo not found")
+    resolved = {s_.targets[0].id for s_ in ast.walk(f.node) if isinstance(s_, ast.Assign) and isinstance(s_.targets[0], ast.Name)
+                and isinstance(s_.value, ast.Call) and dotted(s_.value.func) in ("os.path.realpath", "os.path.abspath")}
+    sw = [c for c in ast.walk(f.node) if isinstance(c, ast.Call) and isinstance(c.func, ast.Attribute) and c.func.attr == "startswith"
+          and isinstance(c.func.value, ast.Name) and c.func.value.id in resolved]
+    accepted = any(isinstance(c, ast.Call) and ((dotted(c.func) or "").endswith("commonpath") or
+                                                (isinstance(c.func, ast.Attribute) and c.func.attr in ("relative_to", "is_relative_to")))
+                   for c in ast.walk(f.node))
+    for c in sw:
+        a = c.args[0] if c.args else None
+        with_sep = isinstance(a, ast.BinOp) and isinstance(a.op, ast.Add) and isinstance(a.left, ast.Name) and a.left.id in resolved and \
+            ("sep" in norm(a.right) or (isinstance(a.right, ast.Constant) and a.right.value in ("/", b"/")))
+        rep.ob("R17.7", m.rel, f.qual, f"`{norm(c, 60)}` compares with the root plus a separator", with_sep,
+               "a prefix test against the bare root accepts sibling directories whose names start with the root's name", c.lineno)
+        accepted = accepted or with_sep
+    rep.ob("R17.7", m.rel, f.qual, "both paths are resolved (realpath) and the test is component-wise; outside raises", len(resolved) >= 2 and accepted
+           and any(isinstance(x, ast.Raise) for x in ast.walk(f.node)), f"resolved: {sorted(resolved)}", f.node.lineno)
+
+
 def run(prog: Program, rep, tier="quick"):
+    rep.rule("R17.7", "containment of a resolved path is decided per path component (no os.path.commonprefix, no prefix test without separator)")
     rep.rule("R17.6", "verify_leading_dirs skips the lstat only for the leading run of verified components (accepted idioms enumerated)")
     rep.rule("R17.5", "transition helpers decide on the lstat result they are given; no symlink-following predicate on the leaf path")
     rep.rule("R17.1", "TAINT: fs paths built from tree paths / index keys reach mutating sinks only behind validate_path AND "
@@ -510,6 +572,7 @@ def run(prog: Program, rep, tier="quick"):
     r17_4(prog, rep)
     r17_5(prog, rep)
     r17_6(prog, rep)
+    r17_7(prog, rep)
     from sa.common import alias_guard
     alias_guard(prog, rep, "R17.1", {"validate_path", "verify_leading_dirs", "_tree_to_fs_path"})
     rep.floor("R17.1", 6)
